@@ -872,7 +872,7 @@ pub fn gen_spec(seed: u64, focus: &str, tier: &str) -> RunSpec {
         _ => Strategy::Sequential,
     };
     let mut mask = site::CLASS_LOCK | site::CLASS_SCHED | site::CLASS_BINDING | site::CLASS_SPIN;
-    let want_meta = matches!(focus, "C17" | "C18" | "C05" | "C12");
+    let want_meta = matches!(focus, "C17" | "C18" | "C05" | "C12" | "C01");
     if want_meta || sr.chance(1, 2) {
         mask |= site::CLASS_META_OBJ;
     }
@@ -886,6 +886,11 @@ pub fn gen_spec(seed: u64, focus: &str, tier: &str) -> RunSpec {
     let liveness = matches!(focus, "C14" | "C16" | "C11") && sr.chance(1, 2);
     let mut meta_every = *sr.pick(&[1u32, 3, 3, 17, 17, 64]);
     if cfg.stress_factor.is_some() && meta_every == 1 {
+        meta_every = 17;
+    }
+    // the raw sites fire on every metadata access of every thread: thin them, or a run spends its
+    // whole step budget there
+    if mask & site::CLASS_META_RAW != 0 && meta_every < 17 {
         meta_every = 17;
     }
     let mmap_faults = sr.chance(1, 5);
